@@ -193,6 +193,8 @@ def gradient_reference(ctx: RunContext, ln: Linked, *, exact_slopes: np.ndarray 
     D = (pv - x[None, None, :])[:, :, mask]
     merge = bool(cfg.get("gradient", {}).get("merge_realizations", False))
     out["merge"] = merge
+    # (differences below this are rounding noise of the variables, not perturbations)
+    floor = 1e-10 * max(1.0, float(np.max(np.abs(x))) if x.size else 1.0)
     for kind, n, y0, yp in (("o", c["no"], y0o, ypo), ("c", c["nc"], y0c, ypc)):
         for j in range(n):
             w, filtered = weights_in_force(ln, kind, j)
@@ -217,12 +219,12 @@ def gradient_reference(ctx: RunContext, ln: Linked, *, exact_slopes: np.ndarray 
                 if exact_slopes is not None:
                     fi = j if kind == "o" else c["no"] + j
                     G[r] = exact_slopes[r, fi]
-                    if not model.lstsq_ok(D[r][s]):
+                    if not model.lstsq_ok(D[r][s], floor):
                         ok = False
                         break
                     continue
                 Dr = D[r][s]
-                if not model.lstsq_ok(Dr):
+                if not model.lstsq_ok(Dr, floor):
                     ok = False
                     break
                 df = yp[r, s, j] - y0[r, j]
@@ -233,6 +235,12 @@ def gradient_reference(ctx: RunContext, ln: Linked, *, exact_slopes: np.ndarray 
             if merge:
                 entry["why"] = "merged"
                 entry["G"], entry["wn"] = G, wn
+                continue
+            if est == "stddev" and np.any((wn > 0) & (wn < 1e-6)):
+                # a realization with a weight of 1e-9 next to one with weight ~1: the weighted standard deviation and its
+                # gradient are differences of nearly equal numbers (f - mean = w_small * (f - f_other)), rounding noise
+                # of 1e-3 relative size was observed between two correct evaluations of the same formula
+                entry["why"] = "stddev-ill-conditioned-weights"
                 continue
             ref = model.estimate_gradient(est, y0[:, j], G, wn)
             if ref is None:
